@@ -435,6 +435,75 @@ theorem honest_other_coefficients_iff (pp : Params F D) (point : Point F) (coeff
     have hq : q ∈ idx := List.mem_of_getElem? hqj
     exact ⟨_, _, by simp [honestProof, hqj], hcolr q (hi q hq), hr hc q hq⟩
 
+
+/-! ### in-domain requests are answered -/
+
+/-- `openOne_eq` with the length of `r` required only when well-formedness is checked -/
+theorem openOne_eq' (pp : Params F D) (point : Point F) (coeffs : List F) (E : List F → List F)
+    (k : Nat) (h : Encodes pp coeffs E k) (a b : List F) (o : Oracle F) (root : D)
+    (ht : tensor point (coeffMat pp.dims coeffs).m (coeffMat pp.dims coeffs).n = .ok (a, b))
+    (hb : b.length = (coeffMat pp.dims coeffs).n)
+    (hr : pp.checkWf = true → o.r.length = (coeffMat pp.dims coeffs).n) (hi : ∀ i ∈ o.indices, i < k) :
+    openOne pp point ⟨(coeffMat pp.dims coeffs).n, (coeffMat pp.dims coeffs).m, k, root⟩
+      ⟨coeffMat pp.dims coeffs, extOf pp coeffs E k, leavesOf pp (extOf pp coeffs E k)⟩ o
+      = .ok (honestProof pp coeffs E k b o) := by
+  have hd : depth (leavesOf pp (extOf pp coeffs E k)) ≠ 0 :=
+    depth_pos_of_two (by rw [leavesOf_length]; exact h.two)
+  have hm : (extOf pp coeffs E k).m ≤ 2 ^ depth (leavesOf pp (extOf pp coeffs E k)) := by
+    have := ceilLog2_spec (leavesOf pp (extOf pp coeffs E k)).length
+    unfold depth
+    rwa [leavesOf_length] at this ⊢
+  unfold openOne
+  simp only [if_neg hd, ht]
+  have hwf : wfVector pp.checkWf (coeffMat pp.dims coeffs) o.r
+      = .ok (if pp.checkWf then some (vecMat o.r (coeffMat pp.dims coeffs).rows
+          (coeffMat pp.dims coeffs).m) else none) := by
+    unfold wfVector Mat.rowMul
+    cases hc : pp.checkWf with
+    | false => simp
+    | true => simp [hr hc]
+  rw [hwf]
+  simp only [Mat.rowMul, hb, if_true]
+  rw [openColumns_eq pp.hs _ _ o.indices hm hd hi]
+  rfl
+
+/-- **In-domain requests are answered on a sponge**: for a polynomial in the domain, a point whose
+`tensor` fits the matrix and parameters for which `calculate_t` answers, `open` answers and `check`
+answers `Ok(true)` from the same history — neither refuses nor aborts. -/
+theorem in_domain_answered (ro : TRO F D) (tp : TParams F D) (point : Point F) (coeffs : List F)
+    (E : List F → List F) (k : Nat) (h : Encodes tp.pp coeffs E k) (a b : List F) (t : Nat)
+    (ht : tensor point (coeffMat tp.pp.dims coeffs).m (coeffMat tp.pp.dims coeffs).n = .ok (a, b))
+    (hb : b.length = (coeffMat tp.pp.dims coeffs).n) (htk : tp.tOf k = .ok t) (s : TLog F D) :
+    ∃ π s', openOneT ro tp point (commitC tp.pp coeffs E k) (commitSt tp.pp coeffs E k) s = .ok (π, s') ∧
+      checkOneT ro tp point (commitC tp.pp coeffs E k) (claimed tp.pp point coeffs) π s
+        = .ok (true, s') := by
+  have hd : depth (leavesOf tp.pp (extOf tp.pp coeffs E k)) ≠ 0 :=
+    depth_pos_of_two (by rw [leavesOf_length]; exact h.two)
+  have hk : k ≠ 0 := by have := h.two; omega
+  -- the prover's well-formedness block answers
+  obtain ⟨r, wf, s2, hwf, hrl⟩ : ∃ r wf s2, proverWf ro tp.pp.checkWf (coeffMat tp.pp.dims coeffs).n
+      (coeffMat tp.pp.dims coeffs) (Sponge.absorb s (.root (commitC tp.pp coeffs E k).root)) = .ok (r, wf, s2) ∧
+      (tp.pp.checkWf = true → r.length = (coeffMat tp.pp.dims coeffs).n) := by
+    unfold proverWf
+    cases hc : tp.pp.checkWf with
+    | false => exact ⟨[], none, Sponge.absorb s (.root (commitC tp.pp coeffs E k).root), by simp, by simp⟩
+    | true =>
+      refine ⟨_, _, _, by simp only [if_true, Mat.rowMul, Sponge.squeezeField, List.length_map,
+        List.length_range]; rfl, fun _ => by simp [Sponge.squeezeField]⟩
+  obtain ⟨idx, s5, hgi⟩ := getIndicesT_total ro k t hk
+    (Sponge.absorb (Sponge.absorb s2 (.pointVec point.toVec))
+      (.openVec (vecMat b (coeffMat tp.pp.dims coeffs).rows (coeffMat tp.pp.dims coeffs).m)))
+  have hidx := (getIndicesT_spec ro k t _ idx s5 hgi).2.2
+  have hop := openOne_eq' tp.pp point coeffs E k h a b ⟨r, idx⟩
+    (merkleRoot tp.pp.hs (leavesOf tp.pp (extOf tp.pp coeffs E k))) ht hb hrl hidx
+  have ho : openOneT ro tp point (commitC tp.pp coeffs E k) (commitSt tp.pp coeffs E k) s
+      = .ok (honestProof tp.pp coeffs E k b ⟨r, idx⟩, s5) := by
+    unfold openOneT
+    simp only [commitC, commitSt] at hwf ⊢
+    have hm : (extOf tp.pp coeffs E k).m = k := rfl
+    simp only [hd, ↓reduceIte, ht, hwf, hm, htk, Mat.rowMul, hb, hgi, hop]
+  exact ⟨_, s5, ho, oneT_lockstep ro tp point coeffs E k h s _ s5 ho⟩
+
 /-- polynomial `i` of the lists is in the domain and the `i`-th commitment / state are `commit`'s -/
 def HonestTriple (pp : Params F D) (coeffs : List F) (c : Comm D) (st : State F D) : Prop :=
   ∃ E k, Encodes pp coeffs E k ∧ c = commitC pp coeffs E k ∧ st = commitSt pp coeffs E k
